@@ -105,14 +105,14 @@ ExpectedStates ==
   LET F == Ev.files  f == Ev.dfile  r == Ev.drec  R == F[f]  n == Len(R)
       With(S) == ApplyChg(snap.state, Flatten([F EXCEPT ![f] = S]))
       c == Ev.dclass
-  IN IF c \in {"payload", "multi"} THEN {With(Sub(R, 1, r - 1) \o Sub(R, r + 1, n))}
+  IN IF c \in {"payload", "multi", "shift"} THEN {With(Sub(R, 1, r - 1) \o Sub(R, r + 1, n))}
      ELSE IF c \in {"len", "lenbig", "lenmerge"}
           THEN {With(Sub(R, 1, r - 1) \o o \o Sub(R, j, n)) : j \in (r + 1)..(n + 1), o \in {<<>>, <<R[r]>>}}
      ELSE IF c \in {"trunc", "truncb"} THEN {With(Sub(R, 1, r - 1))}
      ELSE IF c \in {"append", "transplant"} THEN {With(R)}
      ELSE IF c = "dup" THEN {With(R), With(Append(R, R[r]))}
      ELSE {}
-Detectable == {"payload", "multi", "len", "lenbig", "lenmerge", "trunc", "append", "transplant", "snapbody", "snaphdr", "snapappend", "snaptotal"}
+Detectable == {"payload", "multi", "shift", "len", "lenbig", "lenmerge", "trunc", "append", "transplant", "snapbody", "snaphdr", "snapappend", "snaptotal"}
 SnapClasses == {"snapbody", "snaphdr", "snapappend", "snaptotal"}
 ExactChecked == Ev.dclass \notin SnapClasses /\ Ev.described /\ snap.known
 
